@@ -51,7 +51,7 @@ def setup():
     if S:
         return
     CR.setup()
-    mods = load_instrumented(["myst_parser.mdit_to_docutils.sphinx_", "myst_parser.parsers.sphinx_", "myst_parser.sphinx_ext.myst_refs"])
+    mods = load_instrumented(["myst_parser.mdit_to_docutils.sphinx_", "myst_parser.parsers.sphinx_", "myst_parser.sphinx_ext.myst_refs"], using=CR.R)
     S.update(mods)
 
 
@@ -111,10 +111,10 @@ def project(c):
         dest = posixpath.relpath("nosuch/zz", srcdir or ".") + ".md"
         kind = "missing"
     elif spelling == "path-file":
-        dest = "path:" + posixpath.relpath("files/data.txt", srcdir or ".")
+        dest = "path:" + posixpath.relpath("assets/data.txt", srcdir or ".")
         kind = "file"
     elif spelling == "rel-file":
-        dest = posixpath.relpath("files/data.txt", srcdir or ".")
+        dest = posixpath.relpath("assets/data.txt", srcdir or ".")
         kind = "file"
     elif spelling == "anchor":
         dest = rel + ".md#" + anchor_written(dst)
@@ -138,9 +138,11 @@ def project(c):
 
 
 def write_project(d, spec):
-    os.makedirs(os.path.join(d, "files"), exist_ok=True)
-    open(os.path.join(d, "files", "data.txt"), "w").write("data\n")
-    open(os.path.join(d, "conf.py"), "w").write("extensions = ['myst_parser']\nmyst_heading_anchors = 2\nexclude_patterns = ['_build']\nsuppress_warnings = ['toc.not_included', 'toc.not_readable']\n")
+    os.makedirs(os.path.join(d, "assets"), exist_ok=True)
+    open(os.path.join(d, "assets", "data.txt"), "w").write("data\n")
+    open(os.path.join(d, "conf.py"), "w").write("extensions = ['myst_parser']\nmyst_heading_anchors = 2\nexclude_patterns = ['_build']\nsuppress_warnings = ['toc.not_included', 'toc.not_readable']\n"
+                                              # entries that are only PREFIXES of the unresolvable destinations used below: they must silence nothing
+                                              "nitpick_ignore_regex = [('myst', 'lbl-no'), ('myst', r'\\.\\./nosuch'), ('myst', 'nosuch'), ('myst', '.*no-such')]\n")
     for doc in DOCS:
         p = os.path.join(d, doc + ".md")
         os.makedirs(os.path.dirname(p), exist_ok=True)
@@ -218,8 +220,10 @@ def check(refs, warn, spec):
     elif kind == "file":
         if r["tag"] != "download_reference" and not (r["refuri"] or "").endswith("data.txt"):
             return ("file-link", "link %r to a non-document file became %r" % (spec["md"], r))
-        if nmiss:
-            return ("spurious-warning", "file link %r produced a warning" % spec["md"])
+        if r["tag"] == "download_reference" and (not r["filename"] or not posixpath.normpath(r["reftarget"] or "").endswith("assets/data.txt")):
+            return ("file-link", "link %r: download target %r, collected file %r (expected assets/data.txt)" % (spec["md"], r["reftarget"], r["filename"]))
+        if nmiss or "not readable" in warn:
+            return ("spurious-warning", "file link %r produced a warning: %r" % (spec["md"], warn[:300]))
     else:
         if nmiss != 1:
             return ("missing-warning-count", "unresolvable link %r produced %d xref_missing warnings: %r" % (spec["md"], nmiss, warn[:300]))
